@@ -46,6 +46,7 @@ class Module:
         d["_forward_hooks"] = collections.OrderedDict()
         d["_forward_pre_hooks"] = collections.OrderedDict()
         d["_backward_hooks"] = collections.OrderedDict()
+        d["_backward_pre_hooks"] = collections.OrderedDict()      # torch has it; nothing in tangermeme registers one
         d["training"] = True
         d["calls"] = 0
 
